@@ -52,6 +52,9 @@ pub struct ReadStats {
 }
 
 pub struct Shared {
+    /// consecutive reads answered with "end of data": a consumer that keeps polling is not progressing
+    pub eof_streak: u64,
+    pub livelock: bool,
     pub trace: Vec<Dec>,
     pub stats: ReadStats,
     /// index of the consumer's `next()` call in progress (set by the consumer)
@@ -80,12 +83,12 @@ pub struct SimReader {
 
 impl SimReader {
     pub fn generated(data: Rc<Vec<u8>>, rng: Rng, cfg: GenScript) -> (SimReader, Rc<RefCell<Shared>>) {
-        let shared = Rc::new(RefCell::new(Shared { trace: vec![], stats: ReadStats::default(), cur_call: 0, hard_fired_at_call: None, pos: 0 }));
+        let shared = Rc::new(RefCell::new(Shared { eof_streak: 0, livelock: false, trace: vec![], stats: ReadStats::default(), cur_call: 0, hard_fired_at_call: None, pos: 0 }));
         let (line_ends, crlfs) = index_lines(&data);
         (SimReader { data, line_ends, crlfs, le_cur: 0, cr_cur: 0, pos: 0, script: Script::Gen { rng, cfg, consecutive_eintr: 0, hard_fired: false }, shared: shared.clone() }, shared)
     }
     pub fn replaying(data: Rc<Vec<u8>>, list: Vec<Dec>) -> (SimReader, Rc<RefCell<Shared>>) {
-        let shared = Rc::new(RefCell::new(Shared { trace: vec![], stats: ReadStats::default(), cur_call: 0, hard_fired_at_call: None, pos: 0 }));
+        let shared = Rc::new(RefCell::new(Shared { eof_streak: 0, livelock: false, trace: vec![], stats: ReadStats::default(), cur_call: 0, hard_fired_at_call: None, pos: 0 }));
         let (line_ends, crlfs) = index_lines(&data);
         (SimReader { data, line_ends, crlfs, le_cur: 0, cr_cur: 0, pos: 0, script: Script::Replay { list, idx: 0 }, shared: shared.clone() }, shared)
     }
@@ -186,7 +189,16 @@ impl io::Read for SimReader {
             }
             Dec::Eof => {
                 sh.stats.eof_reads += 1;
-                sh.trace.push(Dec::Eof);
+                sh.eof_streak += 1;
+                if sh.eof_streak > 5_000 {
+                    // bounded liveness: once the data (and the faults) are over, next() must return
+                    sh.livelock = true;
+                    drop(sh);
+                    panic!("VERIF: the parser polled the reader 5000 times after end of data without returning");
+                }
+                if sh.eof_streak < 64 {
+                    sh.trace.push(Dec::Eof);
+                }
                 Ok(0)
             }
             Dec::Deliver(k) => {
@@ -201,6 +213,7 @@ impl io::Read for SimReader {
                     return Ok(0);
                 }
                 buf[..n].copy_from_slice(&self.data[self.pos..self.pos + n]);
+                sh.eof_streak = 0;
                 self.pos += n;
                 sh.pos = self.pos;
                 sh.stats.bytes += n as u64;
